@@ -154,9 +154,19 @@ impl<'a> TokenStream<'a> {
     /// Expands the span
     #[inline(always)]
     pub fn expand_span(&self, mut span: Span) -> Span {
-        span.end_line = self.last_span.end_line;
-        span.end_col = self.last_span.end_col;
-        span.end_offset = self.last_span.end_offset;
+        if self.last_span.end_offset < span.start_offset {
+            // nothing was consumed since `span` was taken from the look-ahead
+            // token (eg: the empty assignment target in `{% for in seq %}`).
+            // The result is the empty span at its start rather than a span
+            // that ends before it starts.
+            span.end_line = span.start_line;
+            span.end_col = span.start_col;
+            span.end_offset = span.start_offset;
+        } else {
+            span.end_line = self.last_span.end_line;
+            span.end_col = self.last_span.end_col;
+            span.end_offset = self.last_span.end_offset;
+        }
         span
     }
 
